@@ -172,14 +172,47 @@ func genAssemble(repo string) string {
 		terms = append(terms, fmt.Sprintf("(%s, %s)", fmt.Sprintf(comp[k], "d"), strings.ToLower(m[3])))
 	}
 
+	// addDispConstraints: which numbers of a supported node get the trivial equation
+	dc := st.funcDecl("Structure", "addDispConstraints")
+	sequential(st, dc)
+	got = stmts(st, dc)
+	if len(got) != 3 || got[0] != "var:var(constraint*structure.Constraintdofs[3]int)" ||
+		got[1] != "addConstraintAtDof:=func(dofint){matrix.SetZeroCol(dof)matrix.SetIdentityRow(dof)vector.SetZero(dof)}" {
+		fatal("%s: addDispConstraints is no longer: declarations, the trivial equation of one number (zero column, identity row, zero load), one loop over the nodes: %v", st.pos(dc), got)
+	}
+	nl, ok := dc.Body.List[2].(*ast.RangeStmt)
+	if !ok || normalize(st.text(nl.X)) != "s.GetAllNodes()" || normalize(st.text(nl.Value)) != "node" || len(nl.Body.List) != 1 {
+		fatal("%s: addDispConstraints no longer visits every node of the structure", st.pos(dc))
+	}
+	guard, ok := nl.Body.List[0].(*ast.IfStmt)
+	if !ok || guard.Else != nil || guard.Init != nil ||
+		normalize(st.text(guard.Cond)) != "node.IsExternallyConstrained()&&node.HasDegreesOfFreedomNum()" || len(guard.Body.List) != 5 ||
+		normalize(st.text(guard.Body.List[0])) != "constraint=node.ExternalConstraint" ||
+		normalize(st.text(guard.Body.List[1])) != "dofs=node.DegreesOfFreedomNum()" {
+		fatal("%s: addDispConstraints no longer takes the supported nodes that have equation numbers, their constraint and their numbers", st.pos(nl))
+	}
+	which := map[string]string{"AllowsDispX": "dx", "AllowsDispY": "dy", "AllowsRotation": "rz"}
+	supRe := regexp.MustCompile(`^if!constraint\.(AllowsDispX|AllowsDispY|AllowsRotation)\(\)\{addConstraintAtDof\(dofs\[([0-2])\]\)\}$`)
+	var sup []string
+	for _, s := range guard.Body.List[2:] {
+		m := supRe.FindStringSubmatch(normalize(st.text(s)))
+		if m == nil {
+			fatal("%s: a support component is no longer 'if the constraint does not allow it, the trivial equation at its number': %s", st.pos(s), st.text(s))
+		}
+		sup = append(sup, fmt.Sprintf("(if %s then [%s] else [])", which[m[1]], fmt.Sprintf(comp[m[2]], "d")))
+	}
+
 	var b strings.Builder
-	b.WriteString("(* GENERATED on every run by /verif/harness/cmd/translate from preprocess/structure.go (MakeSystemOfEquations)\n" +
+	b.WriteString("(* GENERATED on every run by /verif/harness/cmd/translate from preprocess/structure.go (MakeSystemOfEquations, addDispConstraints)\n" +
 		"   and preprocess/element.go (setEquationTerms, addTermsToStiffnessMatrix, addTermsToLoadVector) — never edited by hand. *)\n")
 	b.WriteString("From Coq Require Import List.\nImport ListNotations.\n\n")
 	b.WriteString("(* the six equation numbers a finite element's 6x6 matrix is placed at: t the numbers of its trailing node, l of its leading node *)\n")
 	fmt.Fprintf(&b, "Definition asm_slice_numbers (t l : nat * nat * nat) : list nat :=\n  [%s].\n\n", strings.Join(six, "; "))
 	b.WriteString("(* the entries of the load vector a node's net load (global axes) is added to: d the numbers of the node *)\n")
 	fmt.Fprintf(&b, "Definition asm_load_terms {F : Type} (d : nat * nat * nat) (fx fy mz : F) : list (nat * F) :=\n  [%s].\n\n", strings.Join(terms, "; "))
+	b.WriteString("(* the numbers of a supported node that get the trivial equation x = 0 (zero column, identity row, zero load):\n" +
+		"   dx dy rz say which components the support holds, d the numbers of the node *)\n")
+	fmt.Fprintf(&b, "Definition asm_supported_numbers (dx dy rz : bool) (d : nat * nat * nat) : list nat :=\n  %s.\n\n", strings.Join(sup, " ++ "))
 	b.WriteString("(* MakeSystemOfEquations: every bar in turn (its stiffness terms, then its load terms), then the trivial equation for\n" +
 		"   the numbers no bar refers to, then the supports — plain loops, nothing started concurrently (checked on the syntax tree) *)\n")
 	b.WriteString("Inductive asm_step := AsmBarStiffness | AsmBarLoads | AsmTrivialRows | AsmSupports.\n")
